@@ -416,6 +416,33 @@ def search(rep: C.Report, tier: str, broken):
             rep.violation("inside the advertised range the interpolated free energy differs from the potential at the exact minimum by more than the requested "
                           "tracing tolerance (rTol = 1e-6, relative)", dict(info, rel_error_F=worst[0], rel_error_dFdT_there=worst[1], at_T=worst[2],
                                                               advertised_range=[float(a_), float(b_)]), finding_key="C11:interp-accuracy-aligned")
+    # the SAME FreeEnergy object traced a second time over the same requested range (e.g. with a smaller step after the "step size seems too
+    # large" warning): the phase still disappears inside the requested range, so the end must still be flagged, the table must still stop there
+    for phase in ("low", "high"):
+        for paranoid in (True, False):
+            model, fe, Tn, TMin, TMax, spin_lo, spin_hi, exact_field, exact_V = _setup("toy1", dict(E=0.07, lam=0.12), phase, "cross")
+            dT = model.derivativeSettings.temperatureVariationScale * 1e-6 ** 0.25
+            rep.case(key=("retrace", phase, paranoid))
+            rep.count("re-traced FreeEnergy objects")
+            try:
+                fe.tracePhase(TMin, TMax, dT, 1e-6, spinodal=True, paranoid=paranoid)
+                first = (list(fe.minPossibleTemperature), list(fe.maxPossibleTemperature))
+                fe.tracePhase(TMin, TMax, 0.5 * dT, 1e-6, spinodal=True, paranoid=paranoid)
+            except Exception as ex:  # noqa: BLE001
+                rep.count("re-trace raised " + type(ex).__name__)
+                continue
+            Tst = np.asarray(fe._interpolationPoints)   # pylint: disable=protected-access
+            info = {"model": "toy1", "params": dict(E=0.07, lam=0.12), "phase": phase, "paranoid": paranoid, "requested_range": [TMin, TMax],
+                    "spinodals": [spin_lo, spin_hi], "after_first_trace": first,
+                    "after_second_trace": [list(fe.minPossibleTemperature), list(fe.maxPossibleTemperature)], "table": [float(Tst.min()), float(Tst.max())]}
+            if phase == "low" and not fe.maxPossibleTemperature[1]:
+                rep.violation("after tracing the same object a second time over the same range the upper end is no longer flagged although the phase "
+                              "disappears inside the requested range", info, finding_key="C11:flag-missing:retrace")
+            if phase == "high" and not fe.minPossibleTemperature[1]:
+                rep.violation("after tracing the same object a second time over the same range the lower end is no longer flagged although the phase "
+                              "disappears inside the requested range", info, finding_key="C11:flag-missing:retrace")
+            if (spin_hi is not None and Tst.max() > spin_hi * (1 + 1e-5)) or (spin_lo is not None and Tst.min() < spin_lo * (1 - 1e-5)):
+                rep.violation("after a second trace the table extends beyond a spinodal", info, finding_key="C11:beyond-spinodal")
     # direction: swap the roles of the phases (the labelled low-T phase is favoured ABOVE the crossing)
     th, model, info = models.make_thermo("toy1", {}, TnFrac=0.6, tminFrac=0.8, tmaxFrac=1.12, key="swapped-for-C11")
     th.freeEnergyHigh, th.freeEnergyLow = th.freeEnergyLow, th.freeEnergyHigh
